@@ -67,9 +67,13 @@ def insert_tree(
             new_tree.find_node(node.id) is not None for _, node in in_tree.paths()
         )
 
+        tree_path = new_tree.find_node(tree)
         if (
-            new_tree.find_node(tree)
-            is not None  # In rare cases things fail (see simple-tar case study)
+            tree_path is not None  # In rare cases things fail (see simple-tar case study)
+            # The inserted tree has to be contained as it is (only its open leaves may
+            # have been expanded); re-inserting displaced subtrees (context addition)
+            # must not re-expand its closed nodes.
+            and tree.is_prefix(new_tree.get_subtree(tree_path))
             and new_tree.structural_hash() not in result_hashes
         ):
             result.append(new_tree)
